@@ -20,7 +20,10 @@ RULE = ('random treebanks (1..5 sentences, 1..10 tokens, continuous for '
         '(all 20 pairs), two-step chains A->B->A and A->B->C, own-reader '
         'idempotence B->B (byte for byte), encodings utf-8 / latin-1 / utf-16 '
         'on either side, gzip sources, directory sources, export v4 and '
-        'terminals options; non-trivial = treebank of >= 2 sentences with >= '
+        'terminals options; command line == composition of the library '
+        'functions it names (reader with --src-opts, --trans with --params, '
+        'writer with --dest-opts) byte for byte under random subsets of all '
+        'documented options; non-trivial = treebank of >= 2 sentences with >= '
         '3 tokens in some sentence; distinct = distinct (treebank, source, '
         'destination(s), encodings, options)')
 ASSUMPTIONS = ['carry tables: export {sid, word, pos, morph, edge, labels below '
@@ -47,7 +50,15 @@ MIN = {'quick': {'distinct': 250,
                                  ('options gf-roundtrip', 8),
                                  ('options gf_terminals-alone', 3),
                                  ('directory of gzip sources', 3),
-                                 ('directory round trip in two steps', 5)])},
+                                 ('directory round trip in two steps', 5),
+                                 ('driver: equals library composition', 150)]
+                                + [('driver with ' + o, 8) for o in (
+                                    'gf', 'gf_split', 'gf_separator',
+                                    'continuous', 'replace_parens',
+                                    'brackets_firstid', 'export_four',
+                                    'brackets_emptyroot', 'boyd_split',
+                                    'mark_heads_marking', 'filter_by_length',
+                                    'terminals_one', 'terminals_pos')])},
        'thorough': {'distinct': 5000, 'hooks': {'cli.transform': 15000}}}
 
 CARRY = {
@@ -320,6 +331,8 @@ def run_case(ctx, case):
             run_dir(ctx, case, rng)
         elif kind == 'opts':
             run_opts(ctx, case, rng)
+        elif kind == 'driver':
+            run_driver(ctx, case, rng)
     except Fail as f:
         ctx.fail('C03:' + f.mech, case, f.detail)
         return
@@ -551,6 +564,156 @@ def run_opts(ctx, case, rng):
     ctx.stratum('options ' + scen)
 
 
+def _own_options(opts):
+    """key:value options as documented: True for a bare key, an integer for
+    a value made of digits, the string otherwise."""
+    d = {}
+    for o in opts:
+        if ':' in o:
+            k, v = o.split(':', 1)
+            d[k] = int(v) if v.isdigit() else v
+        else:
+            d[o] = True
+    return d
+
+
+def run_driver(ctx, case, rng):
+    """The command line is the composition of the library functions it names:
+    reader with --src-opts, transformations with --params, writer with
+    --dest-opts, encodings as given -- byte for byte.  (What the library
+    functions themselves do is judged by C01, C02, C04, ...)"""
+    R = ctx.R
+    sfmt, dfmt = case['src'], case['dst']
+    src = write_src(ctx, sfmt, case['bank'], rng, case['senc'], case['gz'],
+                    False)
+    dest = ctx.path('.' + dfmt)
+    args = ['transform', src, dest, '--src-format', sfmt, '--dest-format',
+            dfmt, '--src-enc', case['senc'], '--dest-enc', case['denc'],
+            '--src-opts'] + case['sopts']
+    if case['dopts']:
+        args += ['--dest-opts'] + case['dopts']
+    if case['trans']:
+        args += ['--trans'] + case['trans']
+    if case['params']:
+        args += ['--params'] + case['params']
+    rc, out, err = common.cli(args)
+    ctx.hook('cli.transform')
+    so, do, po = (_own_options(case[k]) for k in ('sopts', 'dopts', 'params'))
+    ref = ctx.path('.ref')
+    problem = None
+    try:
+        with common.captured(), io.open(ref, 'w',
+                                        encoding=case['denc']) as buf:
+            getattr(R.treeoutput, dfmt + '_begin')(buf, **dict(do))
+            for t in getattr(R.treeinput, sfmt)(src, case['senc'], **dict(so)):
+                for name in case['trans']:
+                    t = getattr(R.transform, name)(t, **dict(po))
+                    if t is None:
+                        break
+                if t is not None:
+                    getattr(R.treeoutput, dfmt)(t, buf, **dict(do))
+            getattr(R.treeoutput, dfmt + '_end')(buf, **dict(do))
+        with io.open(ref, 'rb') as f:
+            want = f.read()
+    except Exception as e:
+        problem = e
+    ctx.hook('library composition')
+    if problem is not None:
+        if rc == 0:
+            raise Fail('driver-succeeds-where-library-raises',
+                       'library composition raises %r, command line exits 0'
+                       % (problem,))
+        ctx.stratum('driver: both reject')
+        return
+    if rc != 0:
+        raise Fail('driver-exit-status', 'library composition succeeds, '
+                   'command line exits %r: %s' % (rc, common.tail(err, 300)))
+    with io.open(dest, 'rb') as f:
+        got = f.read()
+    if got != want:
+        i = next((i for i, (a, b) in enumerate(zip(got, want)) if a != b),
+                 min(len(got), len(want)))
+        raise Fail('driver-differs-from-library-composition',
+                   'src-opts %r dest-opts %r trans %r params %r: output '
+                   'differs at byte %d: %r vs %r'
+                   % (case['sopts'], case['dopts'], case['trans'],
+                      case['params'], i, got[max(0, i - 30):i + 30],
+                      want[max(0, i - 30):i + 30]))
+    ctx.stratum('driver: equals library composition')
+    for o in case['sopts'] + case['dopts'] + case['trans']:
+        if o != 'quiet':
+            ctx.stratum('driver with ' + o.split(':')[0])
+
+
+def draw_driver(rng):
+    sfmt = rng.choice(SRC)
+    dfmt = rng.choice(DST)
+    senc = rng.choice(['utf-8', 'utf-8', 'latin-1'])
+    denc = rng.choice(['utf-8', 'utf-8', 'latin-1', 'utf-16'])
+    trans, params, dopts, sopts = [], [], [], ['quiet']
+    r = rng.random()
+    resolve = False
+    if r < 0.2:
+        trans = ['root_attach', 'negra_mark_heads', 'boyd_split']
+        if rng.random() < 0.5:
+            trans.append('raising')
+            resolve = True
+        dopts += rng.choice([['boyd_split_marking'], ['boyd_split_numbering'],
+                             ['boyd_split_marking', 'boyd_split_numbering'],
+                             []])
+    elif r < 0.4:
+        trans = ['negra_mark_heads'] + (['binarize'] if rng.random() < 0.6
+                                        else [])
+        if rng.random() < 0.7:
+            dopts.append('mark_heads_marking')
+        if 'binarize' in trans and rng.random() < 0.4:
+            params.append('bare_bin_labels')
+    elif r < 0.5:
+        trans = [rng.choice(['punctuation_delete', 'punctuation_verylow',
+                             'add_topnode', 'collapse_unary_chains',
+                             'root_attach', 'punctuation_root'])]
+    elif r < 0.6:
+        trans = ['filter_by_length']
+        params += ['filteroperator:' + rng.choice(['lt', 'gt', 'eq', 'le',
+                                                   'ge']),
+                   'filtervalue:%d' % rng.randint(1, 6)]
+    cont = sfmt == 'brackets' or (dfmt == 'brackets' and not resolve
+                                  and rng.random() < 0.8)
+    if dfmt == 'brackets' and not cont and not resolve and rng.random() < 0.5:
+        dopts.append('brackets_skipdisco')
+    if rng.random() < 0.4:
+        dopts.append('gf')
+        if rng.random() < 0.5:
+            dopts.append('gf_terminals')
+        if rng.random() < 0.5:
+            dopts.append('gf_separator:' + rng.choice(['#', '+', '/']))
+    if rng.random() < 0.25:
+        dopts.append('brackets_emptyroot')
+    if rng.random() < 0.25:
+        dopts.append('export_four')
+    if rng.random() < 0.25:
+        dopts.append(rng.choice(['terminals_one', 'terminals_pos']))
+    if rng.random() < 0.3:
+        sopts.append('gf_split')
+        if rng.random() < 0.4:
+            sopts.append('gf_separator:' + rng.choice(['#', '+', '-']))
+    if rng.random() < 0.3:
+        sopts.append('continuous')
+    if rng.random() < 0.3:
+        sopts.append('replace_parens')
+    if rng.random() < 0.3:
+        sopts.append('brackets_firstid:%d' % rng.choice([0, 9, 500]))
+    rng.shuffle(dopts)
+    case = {'kind': 'driver', 'src': sfmt, 'dst': dfmt, 'senc': senc,
+            'denc': denc, 'trans': trans, 'params': params, 'dopts': dopts,
+            'sopts': sopts, 'seed': rng.randrange(10 ** 6),
+            'gz': sfmt != 'tigerxml' and rng.random() < 0.15}
+    lim = 'latin-1' if 'latin-1' in (senc, denc) else 'utf-8'
+    case['bank'] = make_bank(rng, cont, lim, sfmt in ('export', 'tigerxml'),
+                             sfmt == 'export')
+    return case
+
+
 def draw_pair(rng, sfmt, dfmt):
     cont = 'brackets' in (sfmt, dfmt)
     senc = rng.choice(['utf-8', 'utf-8', 'latin-1', 'utf-16'])
@@ -604,6 +767,8 @@ def shard(ctx):
         run_case(ctx, case)
     for i in ctx.indices(ctx.pick(48, 1500)):
         run_case(ctx, draw_opts(ctx.rng('opts', i)))
+    for i in ctx.indices(ctx.pick(200, 5000)):
+        run_case(ctx, draw_driver(ctx.rng('driver', i)))
     for i in ctx.indices(ctx.pick(24, 400)):
         rng = ctx.rng('dir', i)
         a, b = rng.choice(SRC), rng.choice(DST)
